@@ -1,6 +1,7 @@
 package mon
 
 import (
+	"encoding/base64"
 	"fmt"
 
 	"github.com/ory/fosite"
@@ -88,7 +89,13 @@ func C02(c *run.Ctx) {
 			case 1: // foreign client authenticating as itself while naming the owner in the body
 				fsp := w.Specs[foreign]
 				if fsp.Public {
-					s.Redeem(g, sim.RedeemOpts{As: foreign})
+					if r.Intn(2) == 0 {
+						s.Redeem(g, sim.RedeemOpts{As: foreign})
+					} else {
+						// a public client identifies itself in the Basic header (empty password) and names the owner in the body
+						au := world.Auth{Mode: "raw", RawHeader: "Basic " + base64.StdEncoding.EncodeToString([]byte(url.QueryEscape(foreign)+":"))}
+						s.Redeem(g, sim.RedeemOpts{As: foreign, Auth: &au, Extra: url.Values{"client_id": {owner}}})
+					}
 				} else {
 					au := world.Basic(foreign, fsp.Secret)
 					s.Redeem(g, sim.RedeemOpts{As: foreign, Auth: &au, Extra: url.Values{"client_id": {owner}}})
